@@ -171,6 +171,7 @@ func c02DeliverOpt(pkts [][]byte, via string, reads []int, prelude bool) (out c0
 			mu.Lock()
 			got.Dumps = append(got.Dumps, canon.Dump(pkg))
 			got.Types = append(got.Types, fmt.Sprintf("%T", pkg))
+			got.Pkgs = append(got.Pkgs, pkg)
 			mu.Unlock()
 		}
 	}()
@@ -232,6 +233,13 @@ func c02DeliverOpt(pkts [][]byte, via string, reads []int, prelude bool) (out c0
 		mu.Unlock()
 	}
 	mu.Lock()
+	// a delivered package belongs to the consumer: what the reader parses
+	// later must not change it (dumped again now, after everything arrived)
+	for i, p := range got.Pkgs {
+		if i < len(got.Dumps) && canon.Dump(p) != got.Dumps[i] {
+			got.Errs = append(got.Errs, fmt.Sprintf("package %d (%T) changed after it was delivered: it read %.200s when it arrived and reads %.200s now", i, p, got.Dumps[i], canon.Dump(p)))
+		}
+	}
 	out.d = got
 	mu.Unlock()
 	return out, nil
